@@ -43,6 +43,22 @@ func main() {
 		json.Unmarshal([]byte(os.Args[3]), &cfg)
 		ok := p != nil && allGE1(cfg) && (p.Valid == nil || p.Valid(cfg))
 		fmt.Println(ok)
+	case "validmany":
+		var qs []struct {
+			Pipe string `json:"pipe"`
+			Cfg  []int  `json:"cfg"`
+		}
+		if err := json.NewDecoder(os.Stdin).Decode(&qs); err != nil {
+			fmt.Fprintln(os.Stderr, err)
+			os.Exit(3)
+		}
+		oks := make([]bool, len(qs))
+		for i, q := range qs {
+			p := findPipe(q.Pipe)
+			oks[i] = p != nil && len(q.Cfg) == len(p.Params) && allGE1(q.Cfg) && (p.Valid == nil || p.Valid(q.Cfg))
+		}
+		b, _ := json.Marshal(oks)
+		fmt.Println(string(b))
 	default:
 		if !extraMain(os.Args[1], os.Args[2:]) {
 			fmt.Fprintln(os.Stderr, "unknown subcommand", os.Args[1])
